@@ -467,6 +467,28 @@ def apply_history(trace, spec, top, reg):
                 top.sanitize()
 
 
+def job_of_task(task, reg):
+    """
+    The job a task was created for.  The library attaches the job to its task
+    (today as task._job); to survive a renaming of that attribute the lookup is
+    by value, not by name: any value attached to the task (VTask records what is
+    set on it) that is one of the scenario's job objects.  Tasks the library
+    attaches nothing to (e.g. the co_shutdown() tasks) belong to no job.
+    """
+    known = getattr(task, '_vmon_job', None)
+    if known is not None:
+        return known
+    ours = {id(j): j for j in reg.values()}
+    found = None
+    for value in getattr(task, '_vattached', ()):
+        if id(value) in ours:
+            found = value
+            break
+    if found is not None:
+        task._vmon_job = found
+    return found
+
+
 class Execution:
     """everything one execution produced"""
     verdict = None          # ('return', value) | ('raise', exc) | ('wedged', msg) | ('horizon', msg)
@@ -499,7 +521,7 @@ def execute(spec, loop_seed=None, horizon=None, quiescent=None, run_on=1000.0,
                                    for vid, job in reg.items() if hasattr(job, 'required')}
 
             def on_cancel(task, accepted):
-                job = getattr(task, '_job', None)
+                job = job_of_task(task, reg)
                 vid = getattr(job, 'vid', None)
                 if vid is not None and accepted:
                     trace.log('task_cancel', vid)
